@@ -58,6 +58,10 @@ NAMING = [
     ("naming:type-named-like-an-accessor-declared-after", [("enum", "GetMode", (("Off", 0), ("Fast", 2))), ("struct", "Ctl", (("level", 2, U(5), None, None), ("mode", 0, ("ref", "GetMode"), None, None)))], {"Ctl": {"mode": 2, "level": 17}}),
     ("naming:field-named-like-another-fields-alias", [("struct", "Sel", (("ModeType", 1, U(16), None, None), ("Mode", 0, U(8), None, None)))], {"Sel": {"Mode": 1, "ModeType": 515}}),
     ("naming:field-named-like-another-fields-alias-2", [_st("Sel", ("Mode", U(8)), ("ModeType", U(16)))], {"Sel": {"Mode": 1, "ModeType": 515}}),
+    ("naming:fields-named-underscore-digit", [_st("Pair", ("_0", I(16)), ("_1", U(8)), ("_", U(3)))], {"Pair": {"_0": -2, "_1": 7, "_": 5}}),
+    ("naming:struct-named-like-its-own-fields-alias", [_st("SensorType", ("sensor", U(8)), ("gain", U(4)))], {"SensorType": {"sensor": 200, "gain": 9}}),
+    ("naming:struct-named-like-its-own-accessor", [_st("GetStatus", ("status", U(8)))], {"GetStatus": {"status": 7}}),
+    ("naming:enumerator-named-like-its-enum", [("enum", "Mode", (("Off", 0), ("Mode", 1))), _st("Cfg", ("m", ("ref", "Mode")))], {"Cfg": {"m": 1}}),
     ("naming:fields-equal-in-pascal-case", [_st("Wheel", ("speed", U(16)), ("Speed", I(16)))], {"Wheel": {"speed": 1000, "Speed": -2}}),
 ]
 
